@@ -818,3 +818,38 @@ theorem C13_facts_handoff_shape :
     GB.Generated.gwsEventsCloseGuard = ["!stream.req.route.Method.ClientStreaming"] ∧
     (GB.Generated.wsEpilogueOrder.find? (·.1 == "TranscodedWebSocketBridge.ServeHTTP")).map (·.2) = some ["closeDone", "wgWait"] := by
   decide
+
+/-! ## ===== follow-up (seeded C13-m11): the close code is 1000 exactly for a clean end ===== -/
+
+/-- 1000 ⇔ `Forward` returned nil. Every error — whatever its gRPC code: Canceled (1) and DeadlineExceeded (4) are not
+    special, nor is any other of the 2^32 codes — closes with 1001 (1003 for a wrong frame type) and a non-empty
+    reason; the model of `websocketError` has no case distinction on the status code at all. The driver judges the
+    close frame of every `ws` case against `closeFrame` (VIOL `error-close-without-grpc-code` / `clean-end-not-1000`). -/
+theorem C13_close_code_error_iff (res : FwdResult) :
+    ((closeFrame res).1 = 1000 ↔ res = .ok) ∧
+    (∀ c m, (closeFrame (.status c m)).1 = 1001) ∧
+    (∀ eb, (closeFrame (.wrongType eb)).1 = 1003) ∧
+    (∀ c m, c < 2 ^ 32 → (closeFrame (.status c m)).2 ≠ []) := by
+  refine ⟨?_, fun c m => by rw [closeFrame_reason]; rfl, fun eb => by rw [closeFrame_reason]; rfl, ?_⟩
+  · rw [closeFrame_reason]
+    cases res <;> simp [websocketError]
+  · intro c m hc hnil
+    have hp := (C13_close_error c m hc).2.1
+    rw [hnil] at hp
+    have : reasonPrefix c = [] := List.prefix_nil.1 hp
+    simp [reasonPrefix] at this
+
+/-- The target ending the call with CANCELLED while the client listens: 1001, reason `code Canceled: context canceled`. -/
+theorem C13_close_canceled_example :
+    closeFrame (.status 1 [99, 111, 110, 116, 101, 120, 116, 32, 99, 97, 110, 99, 101, 108, 101, 100]) =
+      (1001, [99, 111, 100, 101, 32, 67, 97, 110, 99, 101, 108, 101, 100, 58, 32,
+              99, 111, 110, 116, 101, 120, 116, 32, 99, 97, 110, 99, 101, 108, 101, 100]) := by decide
+
+/-- Facts tie (regenerated from webbridge/websocket.go on every run): in `websocketError` the only return of 1000 sits
+    under exactly `err == nil`, every other path returns the variable `code`, which is 1001 unless the error is one of the
+    two frame-type sentinels (1003). A widened condition (seeded C13-m11: `|| status.Code(err) == codes.Canceled`), another
+    early return or another code assignment break this theorem. -/
+theorem C13_facts_close_code :
+    GB.Generated.websocketErrorReturns = [("err==nil", "1000,\"\""), ("", "code,reason")] ∧
+    GB.Generated.websocketErrorCodeAssigns =
+      [("", "1001"), ("errors.Is(err,errExpectedBinary)||errors.Is(err,errExpectedText)", "1003")] := by decide
